@@ -21,6 +21,7 @@ LEVEL = 'proof'
 THEOREMS = [
     'CC.C16_short', 'CC.C16_short_no_new_branch', 'CC.C16_open', 'CC.C16_switch_ground',
     'CC.C16_remove_element', 'CC.C16_zero_voltage_spec', 'CC.C16_zero_current_spec',
+    'CC.C16_reported_short', 'CC.C16_reported_open',
     'CC.step_sound', 'CC.fold_sound', 'CC.shortPairs_equipotential',
 ]
 OPEN_STATEMENTS = ['converse direction (every solution of the simplified network extends to the original) — covered per instance by the exact-solution oracle',
